@@ -57,6 +57,13 @@ EXTERNAL = {
     "collections.OrderedDict": dict,
     "re.compile": lambda *a, **k: __import__("re").compile(*a, **k),
     "re.escape": lambda *a, **k: __import__("re").escape(*a, **k),
+    "re.sub": lambda *a, **k: __import__("re").sub(*a, **k),
+    "re.subn": lambda *a, **k: __import__("re").subn(*a, **k),
+    "re.findall": lambda *a, **k: __import__("re").findall(*a, **k),
+    "re.split": lambda *a, **k: __import__("re").split(*a, **k),
+    "re.match": lambda *a, **k: __import__("re").match(*a, **k),
+    "re.search": lambda *a, **k: __import__("re").search(*a, **k),
+    "re.fullmatch": lambda *a, **k: __import__("re").fullmatch(*a, **k),
     "operator.attrgetter": lambda *a: __import__("operator").attrgetter(*a),
 }
 
@@ -501,7 +508,12 @@ class Interp:
                     return self.stubs[sym](self, ev, c, args, kwargs)
                 if isinstance(sym, str) and sym in EXTERNAL:
                     args, kwargs = self.args_of(ev, c)
-                    return EXTERNAL[sym](*args, **kwargs)
+                    if sym.startswith(("re.", "math.", "numpy.is")) and any(isinstance(a, Opaque) for a in list(args) + list(kwargs.values())):
+                        raise Unknown(f"{sym} on an opaque value")
+                    try:
+                        return EXTERNAL[sym](*args, **kwargs)
+                    except TypeError as exc:
+                        raise Unknown(f"{sym}: {exc}")
                 if sym is None and isinstance(f, ast.Name):
                     # module-level namedtuple
                     g = fn.unit.globals.get(f.id)
